@@ -64,6 +64,7 @@ func (m *Type) Clone(reuse *Type) *Type {
 	var newStackSize int
 	var newStack []value.Type
 
+	verifClone(reuse)
 	if len(m.fp) < 2 {
 		newStackSize = minStackSize
 	} else {
@@ -213,6 +214,7 @@ func (m *Type) ResetSP() {
 func (m *Type) growStack(size int) {
 	if m.sp+size >= len(m.stack) {
 		m.stack = append(m.stack, make([]value.Type, max(minStackSize, size))...)
+		verifAfterGrow(m, size)
 	}
 }
 
